@@ -45,7 +45,7 @@ func init() {
 		Level: "fault_enumeration",
 		Rule: "E3 fault enumeration: (truncation) every frame of a 40-frame alphabet (4 message kinds × body lengths 0..200) × EVERY cut point k < len(frame) × reader chunkings {whole, 1 byte at a time, and every chunking with ≤1 (thorough ≤2) extra deviations: short read at any byte, data together with io.EOF, one empty read}, the same cuts through 11 standard-library reader types (bytes.Reader, bytes.Buffer, strings.Reader, bufio.Reader of 16/32/64/4096 bytes, io.LimitedReader, io.SectionReader, iotest.OneByteReader, iotest.DataErrReader - code may special-case a reader's dynamic type), and four frames with bodies of 1..3 MiB × cut points within ±1 of m·2^p (p = 9..22, m = 1..3, measured from the frame and from the body start) × {whole, 4 KiB, 64 KiB chunks}: never success, n = k, cause io.EOF for k=0, io.ErrUnexpectedEOF otherwise, either one for k=32; " +
 			"(corrupt header, in a memory-limited worker process) header-size field × body-size field alphabets (0, len±1, 2^31, 2^32, 2^40, 2^47, 2^48, 2^62, 2^63-1, 2^63, 2^63+1, 2^64-1 …) × version bytes {ASCII, 0xff, NUL} × {0, 5, all} body bytes present: header size ≠ 32 ⇒ ErrInvalidHeaderSize after exactly 32 bytes; otherwise success iff the declared body is completely present; never a panic, never a dead process; ReadHeader on every prefix 0..40 of arbitrary bytes returns normally; " +
-			"(writer faults) every frame × EVERY byte budget k ≤ len(frame) × {partial write with error, refusal with count 0}: Marshal returns that error and the count of accepted bytes, which are exactly frame[:count]; (read errors) a non-EOF error injected at every offset, alone or together with the last bytes, under whole and 1-byte chunkings: no success unless the frame was delivered completely, n = bytes delivered. A case is one (frame, fault point, mode); non-trivial when the fault point is inside the frame (0 < k < len).",
+			"(writer faults) every frame × EVERY byte budget k ≤ len(frame) × {partial write with error, refusal with count 0}: Marshal returns that error and the count of accepted bytes, which are exactly frame[:count]; (read errors) a non-EOF error injected at every offset, alone or together with the last bytes, under whole and 1-byte chunkings and after every single chunking deviation (short read at any byte, one empty read): no success unless the frame was delivered completely, n = bytes delivered. A case is one (frame, fault point, mode); non-trivial when the fault point is inside the frame (0 < k < len).",
 		Assumptions: []string{
 			"for a body-size field ≥ 2^63 (no valid frame can have such a body) only 'returns normally and does not succeed' is required; for smaller declared sizes that exceed the stream the truncation clause applies (n = bytes available)",
 			"the worker process runs under `ulimit -v`; a worker that dies is reported for the case it announced before executing it",
@@ -208,6 +208,7 @@ type c07ErrReader struct {
 	failAt   int
 	together bool
 	uniform  int
+	env      *mc.Env // optional: chunking deviations before the fault (short read at any byte, one empty read)
 }
 
 func (r *c07ErrReader) Read(p []byte) (int, error) {
@@ -225,6 +226,16 @@ func (r *c07ErrReader) Read(p []byte) (int, error) {
 	if r.uniform > 0 && r.uniform < n {
 		n = r.uniform
 	}
+	if r.env != nil {
+		// alternatives: 0 = n bytes; 1..n-1 = only that many; n = one empty read
+		c := r.env.Choose(n + 1)
+		switch {
+		case c == n:
+			return 0, nil
+		case c > 0:
+			n = c
+		}
+	}
 	copy(p, r.data[r.pos:r.pos+n])
 	r.pos += n
 	if r.together && r.pos == r.failAt {
@@ -234,13 +245,20 @@ func (r *c07ErrReader) Read(p []byte) (int, error) {
 }
 
 func c07ReadErr(f c06Frame, k int, together bool, uniform int) (got, want string) {
+	return c07ReadErrEnv(f, k, together, uniform, nil)
+}
+
+func c07ReadErrEnv(f c06Frame, k int, together bool, uniform int, env *mc.Env) (got, want string) {
 	defer func() {
 		if e := recover(); e != nil {
+			if s, ok := e.(string); ok && strings.HasPrefix(s, "mc:") {
+				panic(e)
+			}
 			got += fmt.Sprint(" panic: ", e)
 		}
 	}()
 	wire := c06Wire(f)
-	r := &c07ErrReader{data: wire, failAt: k, together: together, uniform: uniform}
+	r := &c07ErrReader{data: wire, failAt: k, together: together, uniform: uniform, env: env}
 	n, _, err := pbcmpl.Unmarshal(r, c06Empty(f.Kind))
 	if k >= len(wire) {
 		// the frame was delivered completely; success or an error are both acceptable, the count is fixed
@@ -517,6 +535,26 @@ func c07Run(c *mc.Ctx) {
 					}
 					c.Add("read_error_cases", 1)
 				}
+				// the same fault after every single chunking deviation
+				mode := "alone"
+				if tog {
+					mode = "together"
+				}
+				n := int64(0)
+				st := mc.ExploreDev(1, func(e *mc.Env) {
+					n++
+					g, w := c07ReadErrEnv(f, k, tog, 0, e)
+					if e.Deviations() == 0 {
+						return
+					}
+					if g != w {
+						c.Fail(8<<48|int64(fi)<<32|int64(k)<<16|int64(ti)<<15|n, "readerror", "readerror/chunked", c07Case{Frame: &fc, Cut: k, Mode: mode, Choices: append([]int(nil), e.Choices...)}, g, w)
+					}
+				})
+				c.Expect(st.Executions - 1)
+				evals += st.Executions - 1
+				nontriv += st.Executions - 1
+				c.Add("read_error_cases_with_chunking_deviation", st.Executions-1)
 			}
 		}
 		c.Count(evals, nontriv)
@@ -655,6 +693,9 @@ func c07Judge(kind string, cs c07Case) (got, want string) {
 	case "writer":
 		return c07WriterFault(*cs.Frame, cs.Budget, cs.Mode)
 	case "readerror":
+		if len(cs.Choices) > 0 {
+			return c07ReadErrEnv(*cs.Frame, cs.Cut, cs.Mode == "together", 0, mc.NewEnv(cs.Choices))
+		}
 		return c07ReadErr(*cs.Frame, cs.Cut, cs.Mode == "together", cs.Uniform)
 	case "readheader":
 		return c07ReadHeaderPrefix(cs.Prefix, cs.Fill)
